@@ -57,6 +57,13 @@ BUILT: dict[str, dict[str, str]] = {
         note="Ties are free; the documented 'undefined' case (best-valued trial without constraint values in a constrained study) only has to satisfy the unconstrained clause.",
         ref="DESIGN.md 3/C12",
     ),
+    "C06": dict(
+        technique="model-based property testing (Hypothesis): generated multi-worker logs (issuer per call, intruder records inside a batch, lagging observers, snapshots, late joiners) replayed by several JournalStorage objects; every call and every worker's final state compared with ModelStorage applied in log order and with a fresh replay",
+        category="exploration",
+        text="Generated-history search over (log, batch split, snapshot point, issuer) tuples: all batch splits a correct backend can produce are reached through observer workers and an append hook that places another worker's record between an issuer's append and read; convergence is checked against a reference model, pairwise between workers and against a replay from record 0, on the file backend (both locks) and fakeredis with small snapshot intervals.",
+        note="fakeredis for Redis; the hook is a plain BaseJournalBackend wrapper. Thread-level interleavings inside one JournalStorage are C03's subject.",
+        ref="DESIGN.md 3/C06",
+    ),
 }
 
 NOT_YET: dict[str, str] = {}
